@@ -180,10 +180,13 @@ def decodeMon (name : String) : PVal St Upd → Except RdErr (Mon St)
   | .mon _ nm m => if nm = name then .ok m else .error .wrongKey
   | _ => .error .decode
 
-/-- the id discipline of channelmonitor.rs::ChannelMonitorImpl::update_monitor -/
+/-- the id discipline of channelmonitor.rs::ChannelMonitorImpl::update_monitor: an update with the
+    legacy id `u64::MAX` is always accepted, any other must be `latest_update_id + 1` (else panic).
+    Update ids are `u64`: `uid ≤ u64::MAX`, and `latest_update_id + 1` overflows (panics in the dev
+    profile) when the monitor already is at `u64::MAX` — hence the explicit bound. -/
 def applyUpd (cfg : Cfg St Upd) (m : Mon St) (uid : Nat) (u : Upd) : Option (Mon St) :=
   if uid = LEGACY_CLOSED_CHANNEL_UPDATE_ID then some ⟨uid, cfg.apply m.st u⟩
-  else if m.id + 1 = uid then some ⟨uid, cfg.apply m.st u⟩
+  else if m.id + 1 = uid ∧ uid ≤ LEGACY_CLOSED_CHANNEL_UPDATE_ID then some ⟨uid, cfg.apply m.st u⟩
   else none
 
 /-- issue the read of every update to load (all futures are polled before any result is looked at) -/
